@@ -69,7 +69,78 @@ def appText (t : Int) (m : Bytes) : Bytes :=
     | some d => bytesOf d
     | none => unknownTypeText t
 
+/-! ## `(*ApplicationException).String()` (exception.go:135-137):
+       `fmt.Sprintf("ApplicationException(%d): %q", e.t, e.m)`; promoted to Transport/ProtocolException,
+       which therefore also print the name "ApplicationException". -/
+
+def hexLower (n : Nat) : UInt8 := if n < 10 then UInt8.ofNat (48 + n) else UInt8.ofNat (87 + n)
+
+/-- `strconv.Quote` on one ASCII byte (strconv.appendEscapedRune, quote = '"', neither ASCIIonly nor
+    graphicOnly): the quote and the backslash are backslash-escaped, 0x20–0x7e print as they are,
+    \a \b \f \n \r \t \v, every other byte below 0x20 and 0x7f as \xhh (lower-case hex) -/
+def quoteByte (b : UInt8) : Bytes :=
+  if b = 34 ∨ b = 92 then [92, b]
+  else if 32 ≤ b ∧ b ≤ 126 then [b]
+  else if b = 7 then [92, 97] else if b = 8 then [92, 98] else if b = 12 then [92, 102]
+  else if b = 10 then [92, 110] else if b = 13 then [92, 114] else if b = 9 then [92, 116]
+  else if b = 11 then [92, 118]
+  else [92, 120, hexLower (b.toNat / 16), hexLower (b.toNat % 16)]
+
+/-- `%q` of an ASCII string (all bytes < 0x80: every byte is a one-byte rune). Non-ASCII messages
+    need the Unicode tables of `strconv.IsPrint` and are outside this model (the harness then reports
+    only the parsed type id and unquoted message). -/
+def quoteAscii (m : Bytes) : Bytes := [34] ++ m.flatMap quoteByte ++ [34]
+
+def isAscii (m : Bytes) : Bool := m.all (fun b => b < 128)
+
+/-- `String()` for an ASCII message -/
+inductive FmtTok where
+  | lit (cs : List Char) | d | q
+deriving DecidableEq, Repr
+
+/-- tokens of a format string whose only verbs are `%d` and `%q` (structural) -/
+def fmtTokens : List Char → List Char → List FmtTok
+  | [], acc => if acc = [] then [] else [.lit acc.reverse]
+  | '%' :: 'd' :: rest, acc => (if acc = [] then [] else [.lit acc.reverse]) ++ .d :: fmtTokens rest []
+  | '%' :: 'q' :: rest, acc => (if acc = [] then [] else [.lit acc.reverse]) ++ .q :: fmtTokens rest []
+  | c :: rest, acc => fmtTokens rest (c :: acc)
+
+def renderFmt (d q : Bytes) : List FmtTok → Bytes
+  | [] => []
+  | .lit cs :: r => bytesOf (String.ofList cs) ++ renderFmt d q r
+  | .d :: r => d ++ renderFmt d q r
+  | .q :: r => q ++ renderFmt d q r
+
+/-- `String()` for an ASCII message: `fmt.Sprintf(format, e.t, e.m)` (exception.go:136) with the format
+    literal regenerated from the source (`Facts.appExcStringFormat`, verbs `%d` and `%q`) -/
+def appString (t : Int) (m : Bytes) : Bytes :=
+  renderFmt (bytesOf (toString t)) (quoteAscii m) (fmtTokens Facts.appExcStringFormat.toList [])
+
+/-- inverse of `quoteByte` on one escape sequence (what `strconv.Unquote` does with it) -/
+def unquoteByte : Bytes → Option UInt8
+  | [b] => if b = 92 ∨ b = 34 then none else some b
+  | [92, 120, h, l] =>
+    let hv (c : UInt8) : Option Nat :=
+      if 48 ≤ c ∧ c ≤ 57 then some (c.toNat - 48) else if 97 ≤ c ∧ c ≤ 102 then some (c.toNat - 87) else none
+    match hv h, hv l with
+    | some x, some y => some (UInt8.ofNat (x * 16 + y))
+    | _, _ => none
+  | [92, c] =>
+    if c = 34 ∨ c = 92 then some c
+    else if c = 97 then some 7 else if c = 98 then some 8 else if c = 102 then some 12
+    else if c = 110 then some 10 else if c = 114 then some 13 else if c = 116 then some 9
+    else if c = 118 then some 11 else none
+  | _ => none
+
 namespace Err
+
+/-- the fields `String()` prints: `some (t, m)` for the three exception types of the package -/
+def tm : Err → Option (Int × Bytes)
+  | transport _ t m => some (t, m)
+  | application _ t m => some (t, m)
+  | protocol _ t m => some (t, m)
+  | protocolW _ t m _ => some (t, m)
+  | _ => none
 
 def kind : Err → Kind
   | plain .. => .plain
